@@ -33,6 +33,45 @@ def run(facts, rep, ctx):
     error_mapping(facts, rep, R4)
     R5 = rep.rule("R11.5", "every Ok result is the decoder's output (LZ13 stored form excepted): no shortcut decides the content", floor=2)
     ok_provenance(facts, rep, R5)
+    R6 = rep.rule("R11.6", "no check of mila's own rejects a conforming stream before the decoder sees it (evaluated at extreme conforming streams)", floor=3)
+    pre_decoder_rejections(facts, rep, R6)
+
+
+# Conforming streams at the edge of what the formats allow: one literal, then the longest run the format can express
+# at displacement 1.  (type, 24-bit LE size, flag byte 0x40 = second token is a reference, literal, reference)
+LZ11_EDGE = (0x11, 0x11, 0x01, 0x01, 0x40, 0x41, 0x1F, 0xFF, 0xF0, 0x00)        # 1 + 0x10110 bytes from 10
+LZ10_EDGE = (0x10, 0x13, 0x00, 0x00, 0x40, 0x41, 0xF0, 0x00)                    # 1 + 18 bytes from 8
+WITNESSES = {LZ10: [("the longest LZ10 run", LZ10_EDGE)],
+             LZ13: [("the longest LZ11 run (bare)", LZ11_EDGE), ("the longest LZ11 run (0x13 wrapper)", (0x13, 0x11, 0x01, 0x01) + LZ11_EDGE),
+                    ("a bare LZ10 stream", LZ10_EDGE), ("the stored form", (0x00, 0x02, 0x00, 0x00, 0x41, 0x42))]}
+
+
+def pre_decoder_rejections(facts, rep, R6):
+    from summ import Evaluator, Ref, Adt, Unknown, Panic
+    E = Evaluator(facts)
+    for fmtn in (LZ10, LZ13):
+        b = facts.ibody(fmtn + "::decompress", combinators=True)
+        if b is None:
+            continue
+        for what, stream in WITNESSES[fmtn]:
+            try:
+                outs = E.outcomes(b, [Ref(Adt("opaque", "S")), Ref(tuple(stream))])
+            except (Unknown, Panic, RecursionError, PathLimit) as u:
+                rep.inconc(R6, "%s at %s: not evaluable (%s)" % (b.name, what, u))
+                continue
+            rejected = None
+            for o in outs:
+                p = o["path"]
+                if o["panic"] and o["definite"]:
+                    rejected = "panics (%s)" % o["panic"]
+                if p.end == "ret" and is_err_term(p.ret) is True and o["definite"] and not [e for e in p.events if e["k"] == "call" and e["callee"] in DECS]:
+                    rejected = "returns an error without running the decoder (under [%s])" % "; ".join(fmt(c[1])[:50] for c in p.conds[-2:])
+            alive = [o for o in outs if not (o["definite"] and (o["panic"] or (is_err_term(o["path"].ret) is True and not [e for e in o["path"].events if e["k"] == "call" and e["callee"] in DECS])))]
+            if rejected and not alive:
+                rep.violation(R6, b.name, "rejects-conforming:" + what.split(" (")[0].replace(" ", "-"), "%s %s on %s: %d bytes %s" % (
+                    b.name.rsplit("::", 2)[-2] + "::decompress", rejected, what, len(stream), " ".join("%02x" % x for x in stream)), "%s:%s" % (b.file, b.line))
+            elif outs:
+                rep.ok(R6, {"fn": b.name, "stream": what, "reaches": "the decoder / the stored copy"})
 
 
 def dispatch(facts, rep, R1):
